@@ -240,6 +240,36 @@ fn structured_doubles(tier: Tier) -> Vec<f64> {
     v
 }
 
+/// Pumped linear families (I-JSON members only: no duplicate keys).
+fn pumped(rep: &mut Report, tier: Tier, mode: &str) {
+    use refmodel::pump::Family;
+    let all: Vec<_> = refmodel::pump::all(tier == Tier::Thorough)
+        .into_iter()
+        .filter(|(f, n, _)| !matches!(f, Family::DuplicateKey | Family::InterleavedDuplicates) && *n <= tier.pick(1025, 4097))
+        .collect();
+    let count = all.len();
+    let t = explore::par_tally(all, |(fam, n, v), t| {
+        // reversed member order so that sorting has work to do
+        let v = match v {
+            RV::Obj(mut m) => {
+                m.reverse();
+                RV::Obj(m)
+            }
+            other => other,
+        };
+        if mode == "C09" {
+            c09_value(&v, t);
+            c09_value(&RV::Arr(vec![v.clone(), RV::Obj(vec![("z".into(), v.clone()), ("a".into(), RV::Null)])]), t);
+        } else {
+            c10_value(&v, t);
+        }
+        t.nontrivial(&(format!("{fam:?}"), n));
+        t.outcome(&format!("pumped:{fam:?}"));
+    });
+    rep.bounds["pumped-families"] = json!({"values": count, "cap": tier.pick(1025, 4097)});
+    rep.absorb(t);
+}
+
 fn number_case(s: &str, t: &mut Tally) {
     c09_value(&RV::Num(s.to_string()), t);
     c09_value(&RV::Arr(vec![RV::Num(s.to_string()), RV::Obj(vec![("n".into(), RV::Num(format!("-{}", s.trim_start_matches('-'))))])]), t);
@@ -671,6 +701,7 @@ fn main() {
             let mut rep = Report::new(&args, "exploration", "E-ENUM: key sets in every permutation + three exhaustive number families against R-canon");
             keys_family(&mut rep, args.tier, "C09");
             numbers_family(&mut rep, args.tier);
+            pumped(&mut rep, args.tier, "C09");
             rep.tally.sample(json!({"value": "{\"\\ud800\\udc00\":1,\"\\ue000\":2}", "canonical": canon::canonical(&RV::Obj(vec![("\u{10000}".into(), RV::num("1")), ("\u{e000}".into(), RV::num("2"))]))}));
             rep.tally.sample(json!({"number": "5.6920387482221225742e-164", "canonical": canon::canonical_number("5.6920387482221225742e-164")}));
             rep.rule = "keys: every ordered selection of up to 4 (5) distinct keys out of 15 (the set contains the U+E000..U+FFFF vs supplementary-plane region), flat, object-in-object and object-in-array; numbers: every spelling up to the length bound over 0 1 2 5 9 - . e E +, for every structured double (16 mantissa patterns x binary exponents) its exact expansion, the midpoint to its successor and the midpoint +-1 in the last place (up to ~770 digits), thresholds and the RFC vectors; canonicalize + compact_print must equal R-canon byte for byte; distinct = distinct key sequences / spellings".into();
@@ -681,6 +712,7 @@ fn main() {
             let mut rep = Report::new(&args, "exploration", "E-ENUM: equivalence classes of documents (member order, number spelling, escapes, whitespace)");
             keys_family(&mut rep, args.tier, "C10");
             c10_documents(&mut rep, args.tier);
+            pumped(&mut rep, args.tier, "C10");
             rep.tally.sample(json!({"number": "1.5e2", "respellings_all_canonicalising_to": canon::canonical_number("1.5e2"), "respellings": respellings("1.5e2")}));
             rep.tally.sample(json!({"documents_with_equal_canonical_form": ["{\"a/\":[\"/a\",null]}", " {\n\"\\u0061\\/\" : [ \"\\u002fa\" , null ] } "], "canonical": canon_doc("{\"\\u0061\\/\":[\"\\u002fa\",null]}").ok()}));
             rep.rule = "every permutation of every key set of up to 4 (5) keys must canonicalise to the same bytes as the sorted selection; every exact respelling (exponent shifts, trailing zeros, e/E, +) of every number spelling up to the length bound must canonicalise identically; every pair of escapable characters in every escape spelling under four whitespace variants; on every value: second application is the identity, nothing but order and number spelling changes (numbers compared as doubles), every object stays queryable and its index well-formed (hook H1); distinct = distinct documents / key sequences".into();
